@@ -310,6 +310,9 @@ def parse_rvalue(s: str) -> Rvalue:
             op, ty, kind = parts
             return Rvalue('cast', (parse_operand(op), ty, kind))
         return Rvalue('use', (parse_operand(s),))
+    if s.startswith('&/*tls*/ '):
+        # address of a thread-local static (std's storage internals; never executed - LocalKey is stubbed)
+        return Rvalue('tlsref', (s[len('&/*tls*/ '):],))
     for pre, mut in (('&raw const ', 'rawconst'), ('&raw mut ', 'rawmut'), ('&mut ', 'mut'), ('&fake shallow ', 'fake'),
                      ('&fake ', 'fake'), ('&', 'shared')):
         if s.startswith(pre):
